@@ -210,7 +210,7 @@ func (e *Expr) CompileExpr(terms ast.Expr, env0 *types.Env) compiler.Closure {
 	}
 	e.logf("transed: %s\n", transed)
 
-	checkEnv := env0.Inherit(e.typeCheck)
+	checkEnv := env0.Over(e.typeCheck)
 	infered := types.Check(transed, checkEnv)
 	e.logf("type: %s\n", infered)
 
@@ -235,7 +235,7 @@ func (e *Expr) makeCallable(closure compiler.Closure, env0 *types.Env) Callable 
 			return nil, err
 		}
 
-		rt := env1.Inherit(e.runtime)
+		rt := env1.Over(e.runtime)
 		vl = closure(rt)
 		return
 	}
